@@ -42,8 +42,24 @@ pub mod server {
     pub mod address_filter {
 //@include frag/server_address_filter.tpl
     }
+//@include frag/server_mod.tpl
+}
+pub mod serial {
+    pub mod server {
+        use vstd::prelude::*;
+        // the RTU server task is opaque in this unit (it is under contract in the client/proto units)
+        pub struct RtuServerTask<T> { pub p: core::marker::PhantomData<T> }
+        impl<T> RtuServerTask<T> {
+            #[verifier::external_body]
+            pub async fn run(&mut self) -> (r: crate::error::Shutdown) { unimplemented!() }
+        }
+    }
 }
 pub mod tcp {
+    pub mod tls {
+        // opaque TLS configuration (its construction is the subject of the tls unit)
+        pub struct TlsServerConfig { pub x: u8 }
+    }
     pub mod server {
 //@include frag/tcp_server_tracker.tpl
 //@include frag/tcp_server_task.tpl
